@@ -98,6 +98,32 @@ impl Mat {
         }
         rank
     }
+    /// inverse over GF(2) (None if singular)
+    pub fn inverse(&self) -> Option<Mat> {
+        let n = self.n;
+        // work on rows of [M | I]; M[r][c] = cols[c].get(r)
+        let mut a: Vec<BitVec> = (0..n).map(|r| { let mut v = BitVec::zero(2 * n); for c in 0..n { if self.cols[c].get(r) { v.set(c, true); } } v.set(n + r, true); v }).collect();
+        for c in 0..n {
+            let p = (c..n).find(|&r| a[r].get(c))?;
+            a.swap(c, p);
+            let piv = a[c].clone();
+            for r in 0..n {
+                if r != c && a[r].get(c) {
+                    a[r].xor_in(&piv);
+                }
+            }
+        }
+        // inverse rows are the right halves; convert to columns
+        let mut cols: Vec<BitVec> = (0..n).map(|_| BitVec::zero(n)).collect();
+        for r in 0..n {
+            for c in 0..n {
+                if a[r].get(n + c) {
+                    cols[c].set(r, true);
+                }
+            }
+        }
+        Some(Mat { n, cols })
+    }
     pub fn hex_cols(&self) -> Vec<String> {
         self.cols.iter().map(|c| crate::util::hex(&c.to_bytes())).collect()
     }
